@@ -141,18 +141,31 @@ def run_shard(task, base_seed):
         # regression tier: committed inputs of repaired defects and of earlier surprises (replays/regression/
         # <property>-<clause>-*.json) are replayed first, in every tier, by the first shard of their clause; a "fixed"
         # entry suppresses nothing, so a defect that returns is a VIOLATION like any other
+        # corpus tier (replays/corpus/, same naming): inputs that once told a faulty implementation from the correct one
+        # (harvested from the seeded-change experiments, DESIGN 8.5) - on the real tree they hold; replayed like the
+        # regression files.  QV_NO_CORPUS=1 switches the corpus off (to measure the generators alone).
         if shard == 0 and cl.machine is None:
             import glob as _glob
-            for fn in sorted(_glob.glob(os.path.join(VERIF, "replays", "regression", f"{pid}-{cname}-*.json"))):
-                doc = replay.read_replay(fn)
-                res["labels"]["regression_replay"] += 1
-                try:
-                    body(doc["case"])
-                except _Violation:
-                    case_, f = state["last"]
-                    key = f.key()
-                    if not any(v["key"] == key for v in res["violations"]):
-                        res["violations"].append({"key": key, "case": replay.encode(case_), "failure": f.as_dict()})
+            dirs = ["regression"] + ([] if os.environ.get("QV_NO_CORPUS") == "1" else ["corpus"])
+            for sub in dirs:
+                for fn in sorted(_glob.glob(os.path.join(VERIF, "replays", sub, f"{pid}-{cname}-*.json"))):
+                    try:
+                        doc = replay.read_replay(fn)
+                    except Exception:  # noqa: BLE001 - an unreadable corpus file is skipped, never an alarm
+                        res["labels"][sub + "_replay_unreadable"] += 1
+                        continue
+                    res["labels"][sub + "_replay"] += 1
+                    try:
+                        body(doc["case"])
+                    except _Violation:
+                        case_, f = state["last"]
+                        key = f.key()
+                        if not any(v["key"] == key for v in res["violations"]):
+                            res["violations"].append({"key": key, "case": replay.encode(case_), "failure": f.as_dict()})
+                    except Exception:  # noqa: BLE001
+                        if sub != "corpus":
+                            raise
+                        res["labels"]["corpus_replay_not_applicable"] += 1      # a case format the check no longer reads
 
         if per < 0:   # stateful machine
             import hypothesis
